@@ -18,11 +18,12 @@ def member_params(i):
                 asset_types=['char', 'location', 'prop', 'fx'],
                 scenes=['ma', 'mb', 'hip', 'blend', 'hou', 'psd', 'nk', 'maya'], caches=['abc', 'json', 'fur', 'grm', 'vdb', 'cache'], movies=['mp4', 'mov', 'avi', 'movie'],
                 alias={'cache': ['abc', 'json', 'fur', 'grm', 'vdb'], 'hou': ['hip', 'hipnc'], 'maya': ['ma', 'mb'], 'movie': ['mp4', 'mov', 'avi']},
-                episode=None, drop_state_in_assets=False, third_basetype=False, third_path_config=False, outdir='OUTPUT', exportdir='EXPORT')
+                episode=None, drop_state_in_assets=False, third_basetype=False, third_path_config=False, outdir='OUTPUT', exportdir='EXPORT',
+                pin_intermediate=False, two_branches=False, no_default_leaf=False)
     if i == 0:
         return demo
     p = dict(demo)
-    kinds = ['rename_keys', 'rename_types', 'separators', 'vocab', 'insert_level', 'third_basetype', 'third_path', 'leaf']
+    kinds = ['rename_keys', 'rename_types', 'separators', 'vocab', 'insert_level', 'third_basetype', 'third_path', 'leaf', 'pin_intermediate', 'two_branches', 'no_default_leaf']
     chosen = set(rng.sample(kinds, rng.randint(2, 5)))
     if i == 1:
         chosen = {'rename_keys', 'leaf', 'rename_types'}
@@ -30,6 +31,8 @@ def member_params(i):
         chosen = {'separators', 'vocab', 'insert_level', 'third_path'}
     if i == 3:
         chosen = {'third_basetype', 'vocab', 'rename_types'}
+    if i == 4:
+        chosen = {'pin_intermediate', 'two_branches', 'no_default_leaf', 'leaf', 'rename_keys'}
     if 'rename_keys' in chosen:
         p.update(project='proj', type='kind', assettype='category', asset='name', task='step', version='rev', state='status', sequence='seq', shot='plan', node='part')
     if 'leaf' in chosen:
@@ -53,6 +56,9 @@ def member_params(i):
         p['third_basetype'] = True
     if 'third_path' in chosen:
         p['third_path_config'] = True
+    for k in ('pin_intermediate', 'two_branches', 'no_default_leaf'):
+        if k in chosen:
+            p[k] = True
     p['chosen'] = sorted(chosen)
     return p
 
@@ -78,6 +84,12 @@ def build(p):
         (S + '__' + K['state'], s_head), (S, '{%s}/{%s:%s}' % (K['project'], K['type'], K['code_s'])),
     ]
     to_extrapolate = [A + '__' + K['state'], S + '__' + K['state']]
+    if K['two_branches']:
+        # a second branch of the same depth as the cache nodes: image layers (another key, another extension family)
+        sid_templates[9:9] = [(S + '__image_aov_file', s_head + '/{aov}/{%s:images}' % leaf), (S + '__image_aov', s_head + '/{aov}')]
+    if K['pin_intermediate']:
+        # intermediate levels given explicitly (the extrapolation must skip them and still generate the levels above)
+        sid_templates += [(A + '__' + K['version'], '/'.join(a_head.split('/')[:-1])), (S + '__' + K['shot'], '/'.join(s_levels[:-3]))]
     if K['third_basetype']:
         l_head = '{%s}/{%s:l}/{shelf}/{item}/{%s}' % (K['project'], K['type'], K['version'])
         sid_templates += [('item__file', l_head + '/{%s:scenes}' % leaf), ('item__' + K['version'], l_head),
@@ -94,6 +106,8 @@ def build(p):
         ('{%s:caches}' % leaf, '{%s:%s}' % (leaf, closed(K['caches']))),
         ('{%s:movies}' % leaf, '{%s:%s}' % (leaf, closed(K['movies']))),
     ]
+    if K['two_branches']:
+        kp_common.append(('{%s:images}' % leaf, '{%s:%s}' % (leaf, closed(['exr', 'png', 'tif']))))
     if ep:
         kp_common.append(('{%s}' % ep[0], '{%s:%s}' % (ep[0], closed([digits(ep[1], ep[2])]))))
     key_patterns = [
@@ -109,7 +123,7 @@ def build(p):
         key_patterns.append(('item__', [('{shelf}', '{shelf:%s}' % closed(['tools', 'hdri']))]))
     key_patterns.append(('', everywhere))      # the demo uses 't' (a letter every type name contains); '' matches every type name
     key_types = [(A, [K['project'], K['type'], K['assettype'], K['asset'], K['task'], K['version'], K['state'], leaf]),
-                 (S, [K['project'], K['type']] + ([ep[0]] if ep else []) + [K['sequence'], K['shot'], K['task'], K['version'], K['state'], K['node'], leaf]),
+                 (S, [K['project'], K['type']] + ([ep[0]] if ep else []) + [K['sequence'], K['shot'], K['task'], K['version'], K['state'], K['node']] + (['aov'] if K['two_branches'] else []) + [leaf]),
                  (P, [K['project']])]
     leaf_keys = [(A, leaf), (S, leaf), (P, leaf)]
     narrowing = [(A, '%s=~%s' % (K['type'], K['code_a'])), (S, '%s=~%s' % (K['type'], K['code_s']))]
@@ -140,6 +154,7 @@ def build(p):
         (S + '__movie_file', s_dir + '/%s/' % K['exportdir'] + s_file + '.{%s:movies}' % leaf),
         (S + '__cache_node_file', s_dir + '/%s/' % K['exportdir'] + s_nodefile + '.{%s:caches}' % leaf),
         (S + '__cache_file', s_dir + '/%s/' % K['exportdir'] + s_cachefile + '.{%s:caches}' % leaf),
+    ] + ([(S + '__image_aov_file', s_dir + '/IMAGES/' + sep.join('{%s}' % k for k in (K['sequence'], K['shot'], K['task'], 'aov', K['state'], K['version'])) + '.{%s:images}' % leaf)] if K['two_branches'] else []) + [
         (S + '__' + K['version'], s_dir),
         (S + '__' + K['task'], s_dir.rsplit('/', 1)[0]),
         (S + '__' + K['shot'], s_dir.rsplit('/', 2)[0]),
@@ -188,7 +203,9 @@ def write_package(i, out):
         f.write('extension_alias = %s\n' % odict(b['alias'].items()))
         f.write('key_patterns = %s\n' % odict2(b['key_patterns']))
         f.write('key_types = %s\n' % odict(b['key_types']))
-        f.write('leaf_keys = %s\nleaf_keys[None] = %r\n' % (odict(b['leaf_keys']), K['leaf']))
+        f.write('leaf_keys = %s\n' % odict(b['leaf_keys']))
+        if not K['no_default_leaf']:
+            f.write('leaf_keys[None] = %r\n' % K['leaf'])
         f.write('basetyped_search_narrowing = %s\ntyped_search_narrowing = {}\n' % odict(b['narrowing']))
     with open(os.path.join(out, 'spil_fs_conf.py'), 'w') as f:
         f.write("from spil_sid_conf import key_patterns\nfrom pathlib import Path\n")
